@@ -2,18 +2,26 @@
 
 use serde_json::Value;
 use simcore::html_props::{HProp, HtmlWorld};
+use simcore::xml_props::{CompositeWorld, XProp, XmlWorld};
 use simcore::world::{Stats, World};
 
 pub fn world_for(prop: &str) -> Option<Box<dyn World>> {
     let h = |p| Some(Box::new(HtmlWorld { prop: p }) as Box<dyn World>);
+    let hx = |name: &'static str, p: HProp, x: XProp| {
+        Some(Box::new(CompositeWorld {
+            prop: name,
+            parts: vec![(3, Box::new(HtmlWorld { prop: p }) as Box<dyn World>), (1, Box::new(XmlWorld { prop: x }) as Box<dyn World>)],
+        }) as Box<dyn World>)
+    };
     match prop {
         "C03" => h(HProp::C03),
-        "C04" => h(HProp::C04),
-        "C05" => h(HProp::C05),
+        "C04" => hx("C04", HProp::C04, XProp::C04),
+        "C05" => hx("C05", HProp::C05, XProp::C05),
         "C06" => h(HProp::C06),
-        "C08" => h(HProp::C08),
+        "C08" => hx("C08", HProp::C08, XProp::C08),
         "C09" => h(HProp::C09),
-        "C18" => h(HProp::C18),
+        "C15" => Some(Box::new(XmlWorld { prop: XProp::C15 }) as Box<dyn World>),
+        "C18" => hx("C18", HProp::C18, XProp::C18),
         "C19" => h(HProp::C19),
         _ => None,
     }
@@ -23,11 +31,11 @@ pub fn world_for(prop: &str) -> Option<Box<dyn World>> {
 /// depends on machine speed.
 pub fn budget(prop: &str, thorough: bool) -> u64 {
     let quick = match prop {
-        "C04" => 120_000,
-        _ => 150_000,
+        "C04" => 700_000,
+        _ => 1_000_000,
     };
     if thorough {
-        quick * 12
+        quick * 15
     } else {
         quick
     }
